@@ -336,6 +336,24 @@ func HMAC(alg string, secret, msg []byte) []byte {
 // ShortenMAC rewrites the TSIG record of a message so that it carries only
 // the first keep octets of its MAC (lengths adjusted, everything else as it
 // was): a forger's attempt at a truncated MAC.
+// CutBehindMACSize returns the message cut right behind the MAC size field of its TSIG record (half: in
+// the middle of the MAC), RDLENGTH adjusted to what is left, the size field untouched; nil when b has no
+// well-formed TSIG.
+func CutBehindMACSize(b []byte, half bool) []byte {
+	t, m, ok := FindTSIG(b)
+	if !ok || t.Odd || len(t.MAC) < 2 || len(m.RRs) == 0 {
+		return nil
+	}
+	rr := m.RRs[len(m.RRs)-1]
+	end := rr.RdStart + len(t.AlgRaw) + 10
+	if half {
+		end += len(t.MAC) / 2
+	}
+	out := append([]byte(nil), b[:end]...)
+	binary.BigEndian.PutUint16(out[rr.RdStart-2:], uint16(end-rr.RdStart))
+	return out
+}
+
 func ShortenMAC(b []byte, keep int) []byte {
 	t, m, ok := FindTSIG(b)
 	if !ok || t.Odd || keep >= len(t.MAC) || len(m.RRs) == 0 {
